@@ -185,7 +185,13 @@ class Escape:
         if isinstance(st, ast.Raise):
             out = self.exprs(f, st, [x for x in (st.exc, st.cause) if x is not None])
             if st.exc is not None:
-                cls = dotted(st.exc.func) if isinstance(st.exc, ast.Call) else dotted(st.exc)
+                exc = st.exc
+                if isinstance(exc, ast.Name) and exc.id not in PARENT:
+                    # err = ValueError(..); raise err
+                    o = origin(f.node, exc)
+                    if isinstance(o, ast.Call) or (isinstance(o, (ast.Name, ast.Attribute)) and (dotted(o) or "").split(".")[-1] in PARENT):
+                        exc = o
+                cls = dotted(exc.func) if isinstance(exc, ast.Call) else dotted(exc)
                 out.add(self._eff(f, (cls or "Exception").split(".")[-1] if cls not in PARENT else cls, st, "raise " + src(st.exc)[:60]))
             return out
         if isinstance(st, ast.Assert):
@@ -690,6 +696,18 @@ class Escape:
                 elif isinstance(st, ast.AugAssign):
                     if not (isinstance(st.op, (ast.Add, ast.Mult)) and self.nonneg(f, st.value, st, depth + 1)):
                         return False
+                elif isinstance(st, ast.Assign) and isinstance(st.targets[0], (ast.Tuple, ast.List)) and any(dotted(t) == e.id for t in st.targets[0].elts):
+                    # a, b = <tuple-valued expression>: the element of every tuple literal the value may be
+                    i = [dotted(t) for t in st.targets[0].elts].index(e.id)
+                    tups = self._tuple_values(f, st.value, 0, set())
+                    if not tups:
+                        return False
+                    for g, t in tups:
+                        if len(t.elts) <= i:
+                            return False
+                        tst = FuncView.of(g.node).stmt_of(t) or g.node
+                        if not self.nonneg(g, t.elts[i], tst, depth + 1):
+                            return False
                 elif isinstance(st, (ast.For, ast.AsyncFor)):
                     if not self._for_target_nonneg(f, st, e.id, depth + 1):
                         return False
@@ -1094,11 +1112,49 @@ class Escape:
         rets = [s for s in statements(g.node) if isinstance(s, ast.Return) and s.value is not None and not (isinstance(s.value, ast.Constant) and s.value.value is None)]
         if not rets:
             return False
+        fvg = FuncView.of(g.node)
         for r in rets:
-            conds = [t for t, pol, _n in dominating_conditions(self.ctx, g, r) if pol]
-            if not any(t.endswith(".e_lfanew > 0") or t.startswith("0 < ") and ".e_lfanew" in t for t in conds):
+            # where the returned (non-None) value is created: the return itself, or - when a local is returned - the
+            # statements of the tuple literals / expressions that flow into it
+            def validated(site) -> bool:
+                conds = [t for t, pol, _n in dominating_conditions(self.ctx, g, site) if pol]
+                return any(t.endswith(".e_lfanew > 0") or t.startswith("0 < ") and ".e_lfanew" in t for t in conds)
+
+            if validated(r):
+                continue
+            sites = self._origin_sites(g, r.value, 0, set()) if isinstance(r.value, ast.Name) else []
+            if not sites or not all(validated(s2) for s2 in sites):
                 return False
         return True
+
+    def _origin_sites(self, f: Func, e: ast.AST, depth: int, seen: set) -> List[ast.AST]:
+        """Statements at which the non-None values a local may hold are created (through copies and tuple unpacking);
+        [] if a value cannot be traced."""
+        if depth > 8 or not isinstance(e, ast.Name) or (f.fq, e.id) in seen:
+            return []
+        seen = seen | {(f.fq, e.id)}
+        out: List[ast.AST] = []
+        for st, v in assignments_to(f.node, e.id):
+            if isinstance(v, ast.Constant) and v.value is None:
+                continue
+            if isinstance(v, ast.Name):
+                r = self._origin_sites(f, v, depth + 1, seen)
+                if not r:
+                    return []
+                out.extend(r)
+            elif v is not None:
+                out.append(st)
+            elif isinstance(st, ast.Assign) and isinstance(st.targets[0], (ast.Tuple, ast.List)):
+                tups = self._tuple_values(f, st.value, 0, set())
+                if not tups:
+                    return []
+                for g2, t in tups:
+                    if g2 is not f and g2.fq != f.fq:
+                        return []
+                    out.append(FuncView.of(f.node).stmt_of(t) or st)
+            else:
+                return []
+        return out
 
     def _validated_parse(self, f: Func, st: ast.AST, c: ast.Call, cal) -> bool:
         """Struct parses that cannot hit EOF: the re-parse of the DOS header at the offset find_mz_offset validated
@@ -1287,6 +1343,15 @@ class Escape:
                             return None
             return "IndexError"
         if isinstance(idx, ast.BinOp):
+            # seq[x % k] with k <= len(seq) (and a non-negative modulus) is always in range
+            if isinstance(idx.op, ast.Mod):
+                try:
+                    k = const_eval(idx.right)
+                except NotConst:
+                    k = None
+                L = self._min_len(f, base, st, at=n)
+                if isinstance(k, int) and k > 0 and L is not None and L >= k:
+                    return None
             return "IndexError"
         # dict lookups with computed keys
         return "KeyError" if not isinstance(idx, ast.Slice) else None
